@@ -398,3 +398,43 @@ def expand_pure_helpers(mod, atoms):
             changed = True
         out.add((ast.unparse(e.body) if changed else t, p))
     return out
+
+
+def resolve_const(mod, fn, expr, depth=4):
+    """Follow a name to the constant it denotes: a local bound exactly once, a module-level constant, a class attribute read through
+    cls / self / the class name, or an instance attribute assigned exactly once in __init__ (a value chosen once per object).
+    Returns the defining expression (an ast node) or ``expr`` itself when it does not resolve to anything simpler."""
+    from .model import enclosing
+    seen = 0
+    while seen < depth:
+        seen += 1
+        if isinstance(expr, ast.Name):
+            ds = assigns_to(fn, expr.id) if fn is not None else []
+            if len(ds) == 1 and isinstance(ds[0], ast.Assign) and len(ds[0].targets) == 1 and isinstance(ds[0].targets[0], ast.Name):
+                expr = ds[0].value
+                continue
+            if not ds and mod.top.get(expr.id) is not None:
+                nm = expr.id
+                rebinds = [x for x in ast.walk(mod.tree) if isinstance(x, ast.Name) and x.id == nm and isinstance(x.ctx, (ast.Store, ast.Del))]
+                if len(rebinds) == 1:
+                    expr = mod.top.get(nm)
+                    continue
+            return expr
+        if isinstance(expr, ast.Attribute) and isinstance(expr.value, ast.Name) and fn is not None:
+            cls = enclosing(fn, ast.ClassDef)
+            base = expr.value.id
+            if cls is not None and base in ("self", "cls", cls.name):
+                ca = [a for a in cls.body if isinstance(a, ast.Assign) and any(isinstance(t, ast.Name) and t.id == expr.attr for t in a.targets)]
+                ia = [a for a in ast.walk(cls) if isinstance(a, ast.Assign) and any(U(t) == "self.%s" % expr.attr for t in a.targets)]
+                if len(ca) == 1 and not ia:
+                    expr = ca[0].value
+                    continue
+                if not ca and len(ia) == 1:
+                    host = enclosing(ia[0], FUNC_TYPES)
+                    if host is not None and host.name == "__init__" and not guard_texts(ia[0]):
+                        expr = ia[0].value
+                        fn = host
+                        continue
+            return expr
+        return expr
+    return expr
